@@ -29,8 +29,11 @@ Vals == 1..NV
 Raw(k, i) == ((k - 1) \div Pow2(LeafBits * (i - 1))) % Pow2(LeafBits)
 LeafVal(k, i, sh) == Norm(Raw(k, i) % Pow2(sh.w), sh)
 
-E(sh, f) == [sh |-> sh, v |-> f, c |-> FALSE]       \* c: the entry is a literal constant (Const object)
-EC(sh, f) == [sh |-> sh, v |-> f, c |-> TRUE]
+E(sh, f) == [sh |-> sh, v |-> f, c |-> FALSE, p |-> FALSE]  \* c: the entry is a literal constant (Const object)
+EC(sh, f) == [sh |-> sh, v |-> f, c |-> TRUE, p |-> FALSE]
+(* p: the entry is an array proxy.  Indexing / slicing a proxy is applied to every ELEMENT of the array (guide,    *)
+(* "Arrays"), which is not an operation on the selected value, so these spellings are not enabled on proxies.    *)
+EP(sh, f) == [sh |-> sh, v |-> f, c |-> FALSE, p |-> TRUE]
 Top(n) == stack[Len(stack) - n]               \* Top(0) = last pushed
 Pop(n) == SubSeq(stack, 1, Len(stack) - n)
 B2I(b) == IF b THEN 1 ELSE 0
@@ -128,6 +131,7 @@ RotateRight(n) ==
 Index(i) ==
     /\ "Index" \in Ops /\ Len(stack) >= 1
     /\ LET a == Top(0) IN
+       /\ ~a.p
        /\ -a.sh.w <= i /\ i < a.sh.w
        /\ Emit(1, E(Unsigned(1), [k \in Vals |-> Bit(UPat(a.v[k], a.sh.w), i % a.sh.w)]), [op |-> "Index", i |-> i])
 Slice(lo, hi) ==
@@ -135,6 +139,7 @@ Slice(lo, hi) ==
     /\ LET a == Top(0)
            l == ClampIdx(lo, a.sh.w)
            h == ClampIdx(hi, a.sh.w) IN
+       /\ ~a.p
        /\ l <= h
        /\ Emit(1, E(Unsigned(h - l), [k \in Vals |-> Field(UPat(a.v[k], a.sh.w), l, h)]),
                [op |-> "Slice", lo |-> lo, hi |-> hi])
@@ -146,7 +151,8 @@ SliceStep(st) ==
     /\ LET a == Top(0)
            ix == StepIdx(a.sh.w, st)
            n == IF a.sh.w = 0 THEN 0 ELSE (a.sh.w + AbsI(st) - 1) \div AbsI(st) IN
-       Emit(1, E(Unsigned(n), [k \in Vals |-> FromBits([j \in 0..(n - 1) |-> Bit(UPat(a.v[k], a.sh.w), ix[j])], n)]),
+       /\ ~a.p
+       /\ Emit(1, E(Unsigned(n), [k \in Vals |-> FromBits([j \in 0..(n - 1) |-> Bit(UPat(a.v[k], a.sh.w), ix[j])], n)]),
             [op |-> "SliceStep", st |-> st])
 (* Cat(a, b, ...): first operand in the least significant position; operands as bit patterns *)
 Cat2 ==
@@ -228,7 +234,7 @@ ArrayIndex2 ==           \* Array([e0, e1])[idx]: e0, e1, idx pushed in this ord
            ix == Top(0) IN
        /\ ix.sh \in {Unsigned(1), Unsigned(0)}
        \* the proxy is shape-wise an equivalent mux tree over the elements the index can address
-       /\ Emit(3, E(IF ix.sh.w = 0 THEN e0.sh ELSE Unify(e0.sh, e1.sh),
+       /\ Emit(3, EP(IF ix.sh.w = 0 THEN e0.sh ELSE Unify(e0.sh, e1.sh),
                     [k \in Vals |-> IF ix.v[k] = 0 THEN e0.v[k] ELSE e1.v[k]]), [op |-> "ArrayIndex", n |-> 2])
 ArrayIndex3 ==           \* Array([e0, e1, e2])[idx] with a 1-bit index: e2 can never be selected
     /\ "ArrayIndex" \in Ops /\ Len(stack) >= 4
@@ -237,7 +243,7 @@ ArrayIndex3 ==           \* Array([e0, e1, e2])[idx] with a 1-bit index: e2 can 
            e2 == Top(1)
            ix == Top(0) IN
        /\ ix.sh = Unsigned(1)
-       /\ Emit(4, E(Unify(e0.sh, e1.sh), [k \in Vals |-> IF ix.v[k] = 0 THEN e0.v[k] ELSE e1.v[k]]), [op |-> "ArrayIndex", n |-> 3])
+       /\ Emit(4, EP(Unify(e0.sh, e1.sh), [k \in Vals |-> IF ix.v[k] = 0 THEN e0.v[k] ELSE e1.v[k]]), [op |-> "ArrayIndex", n |-> 3])
 
 UnOps == {"Neg", "Pos", "Inv", "Abs", "Bool", "Any", "All", "XorR", "AsSigned", "AsUnsigned"}
 BinOps == {"Add", "Sub", "Mul", "FloorDiv", "Mod", "Eq", "Ne", "Lt", "Le", "Gt", "Ge", "And", "Or", "Xor", "Shl", "Shr"}
